@@ -148,11 +148,14 @@ pub fn exec_mut(case: &MutCase) -> CaseReport {
         page[8..12].copy_from_slice(&(n as u32).to_be_bytes());
         let cs = Checksummer::checksum64(&page[8..]);
         page[0..8].copy_from_slice(&cs.to_be_bytes());
+        let pristine_page = page.clone();
         for (pos, mask) in &case.edits {
             let p = (*pos as usize * page.len()) >> 16;
             page[p] ^= mask;
         }
+        // (edits can cancel each other out: then the page is intact and must be accepted)
         match crate::common::guarded(|| judge_blob_index_bytes(&page)) {
+            Ok(Ok(true)) if page == pristine_page => {}
             Ok(Ok(true)) => {
                 failure = Some(Failure::new("mut:damaged-blob-index-accepted", format!("a blob index damaged by edits {:?} was accepted", case.edits)));
             }
